@@ -650,7 +650,8 @@ func (tr *FnCtx) havocLoop(li *loopInfo, st *State) {
 		c := mods[k]
 		old := tr.cur(st, c)
 		nw := tr.havocComp(st, c)
-		if k == "$alloc" {
+		if k == "$alloc" || k == "$clock" {
+			// allocation counter and ghost clock only grow
 			tr.assume("(>= " + nw + " " + old + ")")
 		}
 		li.havocked = append(li.havocked, c)
@@ -702,11 +703,11 @@ func (tr *FnCtx) autoFrame(li *loopInfo, st *State) []string {
 // ---------------------------------------------------------------- lock discipline
 
 type lockCfg struct {
-	domain     map[string]bool   // typeKey of struct types whose fields are guarded by default
-	immutable  map[string]bool   // typeKey.path
-	unguarded  map[string]bool   // typeKey.path
-	guardedMap map[string]bool   // typeKey of map types
-	guardedMem map[string]bool   // typeKey of cell pointee types
+	domain     map[string]bool // typeKey of struct types whose fields are guarded by default
+	immutable  map[string]bool // typeKey.path
+	unguarded  map[string]bool // typeKey.path
+	guardedMap map[string]bool // typeKey of map types
+	guardedMem map[string]bool // typeKey of cell pointee types
 	pkgs       map[string]bool
 }
 
@@ -1233,6 +1234,10 @@ func (tr *FnCtx) applyContract(st *State, f *ssa.Function, spec *FuncSpec, metho
 				continue
 			}
 			if me.whole || !strings.HasPrefix(c.Sort, "(Array") {
+				if kk == "$clock" {
+					clockTick(tr, st)
+					continue
+				}
 				tr.havocComp(st, c)
 				continue
 			}
